@@ -4,7 +4,7 @@
    risk_matrix.py and murphy_impl.py on every run; sums, matrix orientation and the scaling algorithm are
    the hand models of coq/model/C12.v (tied by the correspondence check). *)
 From Coq Require Import Sorting.Sorted Sorting.Permutation.
-From V Require Import lib.Tree lib.C12_aux gen.Gen_C12_kern model.C12 proofs.C12 proofs.C12_nan proofs.C12_murphy proofs.C12_sum proofs.C12_mats proofs.C12_scaling.
+From V Require Import lib.Tree lib.C12_aux gen.Gen_C12_kern model.C12 proofs.C12 proofs.C12_inf proofs.C12_nan proofs.C12_murphy proofs.C12_sum proofs.C12_mats proofs.C12_scaling.
 
 (* firm_single_spec: for every rational forecast, observation, threshold (ties included) and risk parameter, both
    threshold assignments (any string other than "lower" behaves as "upper"; the guard lets only these two through) and
@@ -21,22 +21,73 @@ Theorem C12_firm_single_spec : forall (s : string) (a f o t : Q) (d : disc),
 Proof. exact firm_single_ok. Qed.
 Print Assumptions C12_firm_single_spec.
 
+(* firm_single_spec on EXTENDED values (round 4): +inf / -inf are valid forecasts, observations and thresholds -- they compare
+   like any other value.  For every non-NaN f, o, t (finite or infinite), every risk parameter, both assignments and
+   discount 0 / finite non-zero / inf the regenerated kernel is
+     overforecast  = (1-alpha) * scale(t - o)  if false alarm (lower: o <= t < f, upper: o < t <= f), else 0
+     underforecast = alpha * scale(o - t)      if miss        (lower: f <= t < o, upper: f < t <= o), else 0
+   with comparisons and the distance taken in the extended reals (model/C12.v: firm_over_x, firm_under_x, xdist: +-inf when one
+   of the two is infinite, 0 when observation = threshold, also for two equal infinities).  A penalty that does not apply is 0 --
+   not "distance * 0", which is NaN for an infinite distance (the defect repaired by repo_fixes/firm-discount-infinite-obs.diff;
+   this theorem does not hold for the unrepaired text). *)
+Theorem C12_firm_single_spec_inf : forall (s : string) (a : Q) (f o t : xv) (d : disc),
+  (match d with DFin q => 0 < q | _ => True end) ->
+  f <> XNaN -> o <> XNaN -> t <> XNaN ->
+  let lower := String.eqb s "lower" in
+  let '(tot, over, under) := gen_firm_single f o (XFin a) t (xdisc d) s in
+  over =x= firm_over_x lower a d f o t /\ under =x= firm_under_x lower a d f o t /\
+  tot =x= xadd (firm_over_x lower a d f o t) (firm_under_x lower a d f o t).
+Proof. exact firm_single_x_ok. Qed.
+Print Assumptions C12_firm_single_spec_inf.
+
+(* on finite values the extended specification is the rational one of C12_firm_single_spec *)
+Theorem C12_firm_spec_inf_on_finite : forall (lower : bool) (a f o t : Q) (d : disc),
+  firm_over_x lower a d (XFin f) (XFin o) (XFin t) =x= XFin (firm_over_q lower a d f o t) /\
+  firm_under_x lower a d (XFin f) (XFin o) (XFin t) =x= XFin (firm_under_q lower a d f o t).
+Proof. exact firm_spec_x_fin. Qed.
+Print Assumptions C12_firm_spec_inf_on_finite.
+
+(* ... and with an infinite observation and finite discount distance d > 0 it says: obs = +inf is never a false alarm and is a
+   miss, charged alpha * d, at every threshold at/above the forecast; obs = -inf is never a miss and is a false alarm, charged
+   (1-alpha) * d, at every threshold below the forecast -- finite numbers, no NaN *)
+Theorem C12_firm_obs_plus_inf : forall (lower : bool) (a d f t : Q), 0 < d ->
+  firm_over_x lower a (DFin d) (XFin f) (XInf true) (XFin t) = X0 /\
+  firm_under_x lower a (DFin d) (XFin f) (XInf true) (XFin t) =x=
+    XFin (if (if lower then Qle_bool f t else Qltb f t) then a * d else 0).
+Proof. exact firm_x_obs_pinf. Qed.
+Print Assumptions C12_firm_obs_plus_inf.
+
+Theorem C12_firm_obs_minus_inf : forall (lower : bool) (a d f t : Q), 0 < d ->
+  firm_under_x lower a (DFin d) (XFin f) (XInf false) (XFin t) = X0 /\
+  firm_over_x lower a (DFin d) (XFin f) (XInf false) (XFin t) =x=
+    XFin (if (if lower then Qltb t f else Qle_bool t f) then (1 - a) * d else 0).
+Proof. exact firm_x_obs_ninf. Qed.
+Print Assumptions C12_firm_obs_minus_inf.
+
 (* firm_score = overforecast_penalty + underforecast_penalty, for all inputs whatsoever *)
 Theorem C12_firm_score_is_over_plus_under : forall f o a t d s,
   let '(tot, over, under) := gen_firm_single f o a t d s in tot = xadd over under.
 Proof. exact firm_total_is_sum. Qed.
 Print Assumptions C12_firm_score_is_over_plus_under.
 
-(* NaN-iff for EVERY output component (per-case thresholds incl. NaN): a NaN forecast, observation or threshold
-   gives NaN -- never a zero penalty -- and nothing else does (finite data, discount 0 / finite / +inf) *)
+(* NaN-iff for EVERY output component (per-case thresholds incl. NaN): a NaN forecast, observation or threshold gives NaN --
+   never a zero penalty -- and NOTHING ELSE does: not an infinite forecast, observation or threshold (round 4: infinite values
+   are inside the statement), for 0 < alpha < 1 and discount 0 / finite / +inf. *)
 Theorem C12_firm_nan_iff : forall (s : string) (a : Q) (f o t d : xv),
-  xisinf f = false -> xisinf o = false -> xisinf t = false -> disc_ok d ->
+  0 < a < 1 -> disc_ok d ->
   let '(tot, over, under) := gen_firm_single f o (XFin a) t d s in
   (tot = XNaN <-> f = XNaN \/ o = XNaN \/ t = XNaN) /\
   (over = XNaN <-> f = XNaN \/ o = XNaN \/ t = XNaN) /\
   (under = XNaN <-> f = XNaN \/ o = XNaN \/ t = XNaN).
 Proof. exact firm_nan_iff. Qed.
 Print Assumptions C12_firm_nan_iff.
+
+(* the "if" direction without any hypothesis: whatever the risk parameter, discount distance and the other inputs are
+   (finite, infinite or NaN), a NaN forecast, observation or threshold makes all three outputs NaN *)
+Theorem C12_firm_nan_in : forall (s : string) (a f o t d : xv),
+  f = XNaN \/ o = XNaN \/ t = XNaN -> gen_firm_single f o a t d s = (XNaN, XNaN, XNaN).
+Proof. exact firm_nan_in. Qed.
+Print Assumptions C12_firm_nan_in.
 
 (* firm_total: over any list of (threshold_j, weight_j) with finite weights and for ANY data (NaN, inf included),
    the summed firm_score is the summed overforecast plus the summed underforecast penalty *)
@@ -54,37 +105,40 @@ Theorem C12_firm_is_weighted_sum_of_penalties : forall c s (a f o : Q) (d : disc
 Proof. exact firm_point_spec. Qed.
 Print Assumptions C12_firm_is_weighted_sum_of_penalties.
 
-(* a missing forecast or observation makes the summed score of the case NaN (at least one threshold) *)
-Theorem C12_firm_sum_nan : forall c s (a : Q) (f o d : xv) (tws : list (xv * xv)),
-  tws <> [] -> xisinf f = false -> xisinf o = false -> disc_ok d ->
-  Forall (fun tw => xisinf (fst tw) = false) tws ->
-  (f = XNaN \/ o = XNaN) -> firm_point c f o (XFin a) d s tws = XNaN.
+(* a missing forecast or observation makes the summed score of the case NaN (at least one threshold), whatever the thresholds,
+   threshold weights, risk parameter, discount and the other of the two are -- finite, infinite or NaN *)
+Theorem C12_firm_sum_nan : forall c s (a f o d : xv) (tws : list (xv * xv)),
+  tws <> [] -> (f = XNaN \/ o = XNaN) -> firm_point c f o a d s tws = XNaN.
 Proof. exact firm_point_nan. Qed.
 Print Assumptions C12_firm_sum_nan.
 
 (* firm_is_murphy_quantile: without discounting, the FIRM kernel ("lower") IS the regenerated Murphy quantile
-   elementary score at theta = threshold after murphy_score's NaN matching/merge: total, over and under, for
-   every finite-or-NaN forecast, observation and threshold (ties included) *)
+   elementary score at theta = threshold after murphy_score's NaN matching/merge: total, over and under, for every
+   finite-or-NaN forecast and EVERY observation and threshold -- finite, infinite or NaN (ties included).
+   The forecast is restricted to finite-or-NaN in the three Murphy theorems because murphy_impl.py builds its zero array as
+   `fcst * 0.0` (NaN for an infinite forecast: murphy_score then returns 0 instead of the penalty for the quantile and Huber
+   functionals -- a defect of murphy_score being repaired separately); FIRM itself is right there (C12_firm_single_spec_inf). *)
 Theorem C12_firm_is_murphy_quantile : forall (a : Q) (f o t : xv),
-  xisinf f = false -> xisinf o = false -> xisinf t = false ->
+  xisinf f = false ->
   let '(tot, over, under) := gen_firm_single f o (XFin a) t (XFin 0) "lower" in
   let '(mt, mo, mu) := murphy_point (fun f o t => gen_c12_murphy_quantile f o t (XFin a)) f o t in
   tot =x= mt /\ over =x= mo /\ under =x= mu.
 Proof. exact firm_murphy_quantile. Qed.
 Print Assumptions C12_firm_is_murphy_quantile.
 
-(* firm_is_murphy_huber: with discount distance d > 0 it is the Murphy Huber elementary score with huber_a = d *)
+(* firm_is_murphy_huber: with discount distance d > 0 it is the Murphy Huber elementary score with huber_a = d; infinite
+   observations and thresholds included *)
 Theorem C12_firm_is_murphy_huber : forall (a d : Q) (f o t : xv), 0 < d ->
-  xisinf f = false -> xisinf o = false -> xisinf t = false ->
+  xisinf f = false ->
   let '(tot, over, under) := gen_firm_single f o (XFin a) t (XFin d) "lower" in
   let '(mt, mo, mu) := murphy_point (fun f o t => gen_c12_murphy_huber f o t (XFin a) (XFin d)) f o t in
   tot =x= mt /\ over =x= mo /\ under =x= mu.
 Proof. exact firm_murphy_huber. Qed.
 Print Assumptions C12_firm_is_murphy_huber.
 
-(* ... and with discount distance inf it is the Murphy expectile elementary score *)
-Theorem C12_firm_is_murphy_expectile : forall (a : Q) (f o t : xv),
-  xisinf f = false -> xisinf o = false -> xisinf t = false ->
+(* ... and with discount distance inf it is the Murphy expectile elementary score (an infinite distance is charged inf) *)
+Theorem C12_firm_is_murphy_expectile : forall (a : Q) (f o t : xv), 0 < a < 1 ->
+  xisinf f = false ->
   let '(tot, over, under) := gen_firm_single f o (XFin a) t (XInf true) "lower" in
   let '(mt, mo, mu) := murphy_point (fun f o t => gen_c12_murphy_expectile f o t (XFin a)) f o t in
   tot =x= mt /\ over =x= mo /\ under =x= mu.
@@ -241,3 +295,11 @@ Example C12_ex_tie_upper : (* ... and to the upper category under "upper": no pe
 Proof. vm_compute. auto. Qed.
 Example C12_ex_disc : match DFin (1#2) with DFin q => ~ q == 0 | _ => True end /\ disc_ok (XFin (1#2)) /\ disc_ok (XInf true).
 Proof. simpl. repeat split; try lra. Qed.
+(* round 4, the reported input: fcst 3, obs +inf, thresholds [2, 4], weights [1, 2], alpha 3/10, discount distance 1:
+   a miss at threshold 4 only (3 <= 4 < inf), discounted to alpha * min(inf, 1) -> 0.3 * 1 * 2 = 0.6 under, 0 over (the
+   unrepaired code gave NaN for firm_score and overforecast_penalty); and obs -inf: one false alarm at threshold 2 -> 0.7 over *)
+Example C12_ex_inf_obs :
+  firm_point FTotal (XFin 3) (XInf true) (XFin (3#10)) (XFin 1) "lower" [(XFin 2, XFin 1); (XFin 4, XFin 2)] =x= XFin (6#10) /\
+  firm_point FOver (XFin 3) (XInf true) (XFin (3#10)) (XFin 1) "lower" [(XFin 2, XFin 1); (XFin 4, XFin 2)] =x= XFin 0 /\
+  firm_point FOver (XFin 3) (XInf false) (XFin (3#10)) (XFin 1) "lower" [(XFin 2, XFin 1); (XFin 4, XFin 2)] =x= XFin (7#10).
+Proof. vm_compute. repeat split. Qed.
